@@ -123,6 +123,8 @@ impl WalletSeed {
 		if fs::rename(seed_file_name, backup_seed_file_name.as_str()).is_err() {
 			return Err(Error::GenericError("Can't rename wallet seed file".to_owned()).into());
 		}
+		#[cfg(feature = "verif_hooks")]
+		crate::libwallet::verif::point("seed.backup.post").map_err(Error::GenericError)?;
 		warn!("{} backed up as {}", seed_file_name, backup_seed_file_name);
 		Ok(backup_seed_file_name)
 	}
@@ -150,8 +152,13 @@ impl WalletSeed {
 		let enc_seed = EncryptedWalletSeed::from_seed(&seed, password)?;
 		let enc_seed_json = serde_json::to_string_pretty(&enc_seed).map_err(|_| Error::Format)?;
 		let mut file = File::create(seed_file_path).map_err(|_| Error::IO)?;
+		#[cfg(feature = "verif_hooks")]
+		crate::libwallet::verif::point("seed.recover.created").map_err(Error::GenericError)?;
 		file.write_all(&enc_seed_json.as_bytes())
 			.map_err(|_| Error::IO)?;
+		#[cfg(feature = "verif_hooks")]
+		crate::libwallet::verif::point_file("seed.recover.written", Path::new(seed_file_path))
+			.map_err(Error::GenericError)?;
 		warn!("Seed created from word list");
 		Ok(())
 	}
@@ -184,8 +191,13 @@ impl WalletSeed {
 		let enc_seed = EncryptedWalletSeed::from_seed(&seed, password)?;
 		let enc_seed_json = serde_json::to_string_pretty(&enc_seed).map_err(|_| Error::Format)?;
 		let mut file = File::create(seed_file_path).map_err(|_| Error::IO)?;
+		#[cfg(feature = "verif_hooks")]
+		crate::libwallet::verif::point("seed.init.created").map_err(Error::GenericError)?;
 		file.write_all(&enc_seed_json.as_bytes())
 			.map_err(|_| Error::IO)?;
+		#[cfg(feature = "verif_hooks")]
+		crate::libwallet::verif::point_file("seed.init.written", Path::new(seed_file_path))
+			.map_err(Error::GenericError)?;
 		Ok(seed)
 	}
 
@@ -223,6 +235,8 @@ impl WalletSeed {
 		if Path::new(seed_file_path).exists() {
 			debug!("Deleting wallet seed file at: {}", seed_file_path);
 			fs::remove_file(seed_file_path).map_err(|_| Error::IO)?;
+			#[cfg(feature = "verif_hooks")]
+			crate::libwallet::verif::point("seed.delete.post").map_err(Error::GenericError)?;
 		}
 		Ok(())
 	}
